@@ -210,6 +210,10 @@ func PutFile(path, content string) {
 	os.WriteFile(path, []byte(content), 0644)
 }
 
+// IsNative reports whether the harness runs natively (replay) rather than under the engine. It may only
+// select between two environments that are observably equivalent for the code under test.
+func IsNative() bool { return true }
+
 var tempRoot string
 
 // TempRoot is the directory harnesses put their files under ("/zzv" in the engine's in-memory file map).
